@@ -79,6 +79,21 @@ func OrcaFault(a Args) {
 	ports := a.Cfg.Ports()
 	e9 := stack.MEntry{V: []int{9}, F: 1, E: absx.Inf}
 	e8 := stack.MEntry{V: []int{8}, F: 2, E: absx.Inf}
+	if a.Sizes == "chunk" {
+		// behind the chunked handler the pre-loaded values span several chunks (three and two): per-chunk
+		// requests are where a fault can strike in the middle of one command
+		p := sizesFor(a.Sizes, kl)[2]
+		pick := func(lo, hi int, def int) int {
+			for id := 20; id < 60; id++ {
+				if n := len(w.Block(id)); n > lo && n <= hi {
+					return id
+				}
+			}
+			return def
+		}
+		e9.V = []int{pick(2*p, 3*p, 9)}
+		e8.V = []int{pick(p, 2*p, 8)}
+	}
 	pre := func(kind string) (stack.MMap, stack.MMap) {
 		switch kind {
 		case "both":
